@@ -10,3 +10,7 @@ import TinsModel.Props.C19
 #print axioms Tins.Props.C19.receiver_histories_conform
 #print axioms Tins.Props.C19.intervals_are_the_maximal_runs
 #print axioms Tins.Props.C19.intervals_always_canonical
+#print axioms Tins.Props.C19.canonical_preserved_by_any_packet
+#print axioms Tins.Props.C19.ack_only_without_sack
+#print axioms Tins.Props.C19.sack_option_roundtrip
+#print axioms Tins.Props.C19.segmentAckedAnyLength_fails
